@@ -1244,6 +1244,13 @@ class Gate:
                 if r is not None:
                     return ('eq', r, b.value), isinstance(e.ops[0], ast.Eq)
             return None
+        if isinstance(e, ast.Compare) and len(e.ops) == 1 and isinstance(e.ops[0], (ast.In, ast.NotIn)):
+            # membership of a subject in a collection that is not a display of literals (a parameter, a configuration value): an atom of
+            # its own, independent of the atoms over OTHER subjects (distinct fields of the userdata vary independently)
+            r = self.role(self.fn, e.left)
+            if r is not None and not isinstance(e.comparators[0], (ast.Tuple, ast.List, ast.Set, ast.Constant)):
+                return ('in', r, pf.nsrc(e.comparators[0])), isinstance(e.ops[0], ast.In)
+            return None
         if isinstance(e, (ast.Compare, ast.BoolOp, ast.UnaryOp, ast.Constant)):
             return None
         r = self.role(self.fn, e)
@@ -1254,8 +1261,30 @@ class Gate:
     def _expand(self, e: ast.AST) -> ast.AST:
         return pf.expand_locals(self.fn, e, 4)
 
+    def _in_literals(self, e: ast.AST) -> Optional[ast.AST]:
+        """`S in (c1, c2)` -> `S == c1 or S == c2`;  `S not in (..)` -> its negation; None for anything else.  A collection held in
+        a module constant / single-definition local built from string literals is read like the display."""
+        if not (isinstance(e, ast.Compare) and len(e.ops) == 1 and isinstance(e.ops[0], (ast.In, ast.NotIn))):
+            return None
+        coll = e.comparators[0]
+        elts: Optional[List[ast.expr]] = None
+        if isinstance(coll, (ast.Tuple, ast.List, ast.Set)) and coll.elts and all(isinstance(x, ast.Constant) for x in coll.elts):
+            elts = list(coll.elts)
+        elif isinstance(coll, ast.Name):
+            lits = closed_collection(self.m, self.fn, coll, lambda f, c: None)
+            if lits:
+                elts = [ast.Constant(value=x) for x in lits]
+        if elts:
+            alts: List[ast.expr] = [ast.Compare(left=e.left, ops=[ast.Eq()], comparators=[x]) for x in elts]
+            dis: ast.expr = alts[0] if len(alts) == 1 else ast.BoolOp(op=ast.Or(), values=alts)
+            return dis if isinstance(e.ops[0], ast.In) else ast.UnaryOp(op=ast.Not(), operand=dis)
+        return None
+
     def _collect(self, e: ast.AST, depth: int = 0) -> None:
         e = self._expand(e) if depth == 0 else e
+        lit = self._in_literals(e)
+        if lit is not None:
+            e = lit
         if isinstance(e, ast.BoolOp):
             for v in e.values:
                 self._collect(v, depth + 1)
@@ -1270,6 +1299,9 @@ class Gate:
     def ev(self, e: ast.AST, val: Dict[tuple, bool], top: bool = True) -> Optional[bool]:
         if top:
             e = self._expand(e)
+        lit = self._in_literals(e)
+        if lit is not None:
+            e = lit
         if isinstance(e, ast.BoolOp):
             vs = [self.ev(v, val, False) for v in e.values]
             if isinstance(e.op, ast.And):
@@ -1301,7 +1333,9 @@ class Gate:
         return True
 
     def valuations(self, extra: Sequence[tuple]) -> List[Dict[tuple, bool]]:
-        keys = list(dict.fromkeys(list(extra) + self.atoms))
+        # a membership atom over a subject the requirement itself talks about is NOT independent of the requirement's atoms: left unknown
+        req_subjects = {x[1] for x in extra}
+        keys = list(dict.fromkeys(list(extra) + [a for a in self.atoms if not (a[0] == 'in' and a[1] in req_subjects)]))
         if len(keys) > 10:
             raise AnalysisError(f'{self.m.rel}::{self.m.qualname(self.fn)}: {len(keys)} atomic conditions: truth table too large')
         out = []
@@ -1394,7 +1428,9 @@ def show_valuation(val: Optional[Dict[tuple, bool]]) -> str:
         return ''
     out = []
     for k, v in val.items():
-        if k[0] == 'eq':
+        if k[0] == 'in':
+            out.append(f"{k[1]} {'in' if v else 'not in'} {k[2]}")
+        elif k[0] == 'eq':
             out.append(f"{k[1]} {'==' if v else '!='} {k[2]!r}")
         else:
             out.append(f"{k[1]} is {'truthy' if v else 'falsy'}")
